@@ -301,6 +301,17 @@ def plan(prop, tier, seed, find):
                     nontrivial=("decided sub-case in which a non-empty cut-set was handed out on some path", lambda r: r["notes"].get("cutset_nonempty", 0) > 0))
     if prop == "C12":
         b = _dd_bundles(tier, seed, find, "C12", ["relaxed", "restricted", "exact"], [1, 2]) + _long_arc_bundles(tier, seed, find, "C12", ["relaxed", "restricted"])
+        # state-wise irrelevance (a whole mask skips a variable): the union merge is not a sound relaxation there, which the
+        # protocol clauses do not need; a merged state can then equal the state of a node that waits in the pool
+        lim12 = _limits(tier)
+        sw = dict(n=4, b=3, d=2, setnext=1, statewise=1, depth_free=1)
+        base12 = seed * 1000
+        for w in (1, 2, 3):
+            for comp in ("relaxed", "restricted"):
+                seeds = [base12 + 900 + w] + find([], sw, 2, base12 + 1, dyn=dict(notes="VIOLATION", dd="pooled", comp=comp, width=w, roots=0, props="C12", tries=3), count=(6000 if tier == "quick" else 30000))
+                for s in seeds:
+                    for dd in (("pooled",) if s != seeds[0] else DD3):
+                        b.append(P(kind="dd", dd=dd, comp=comp, seed=s, width=str(w), roots="0", rub="none", lb="none", hist=0, rev=0, props="C12", nsym=8, **sw, **lim12))
         return dict(engine="symx", bundles=b, prefixes=["C12:"], vacuity=dict(merge=1), functions=FUNCS_DD + ["callbacks observed: Problem::{transition,transition_cost,next_variable,for_each_in_domain}, Relaxation::{merge,relax}"], bounds=bound_dd,
                     nontrivial=("decided sub-case with at least one merge (relax() was called)", lambda r: r["notes"].get("merge", 0) > 0))
     if prop == "C13":
